@@ -75,6 +75,9 @@ def apply_contract(eng, st, con, pos, kw, constructing=None):
             s2 = s2.assume(ens)
             if eng.feasible(s2):
                 res.append(("raise", s2, VExc(case.raises)))
+    if not reqs:
+        raise Unsupported(f"no case of contract {con.key} accepts these argument types: "
+                          f"{ {k: type(v).__name__ for k, v in a.items()} }")
     # the cases must cover the precondition at this call site
     eng.oblige(st, z3.Or(*reqs) if reqs else z3.BoolVal(False), f"call:{con.key}/cases-cover", kind="callpre")
     return res
